@@ -1,7 +1,7 @@
 #!/bin/sh
 # C19, memory-safety sentence (validation, not proof): run the `buffer` harness domain — the same
 # runner, generator and property oracle as the native harness — and samples of the request files of
-# all other checks' domains except `map` (see tools/c19_miri_select.py for what is left out and why:
+# all other checks' domains (see tools/c19_miri_select.py for what is left out and why:
 # C/C++ behind FFI, hash-form sweeps, long inputs) under
 # Miri, comparing every output line with the Lean model's.
 #
@@ -12,7 +12,7 @@
 # Prints one line `MIRI-VERDICT …`, writes evidence/C19-miri.json, and exits non-zero iff Miri
 # (Tree Borrows) reports undefined behaviour, or an output line differs from the model's, or a
 # property oracle fails, or a run does not finish.  Wall time about 10–12 min on a quiet machine (the
-# eighteen runs are parallel; the `buffer` one dominates).
+# nineteen runs are parallel; the `buffer` one dominates).
 set -u
 cd "$(dirname "$0")/.."
 REPO=${VERIF_REPO:-/repo}
@@ -35,7 +35,7 @@ vlib.cargo_build()
 " > run/miri.build.log 2>&1
 fi
 if [ ! -x "$H" ] || [ ! -x "$D" ]; then echo "MIRI-VERDICT not run: native harness or driver missing (see run/miri.build.log)"; exit 2; fi
-OTHERS="packer huffman packet6 packet7 snap teehist demo demohl datafile browse gamenet recv snapmgr snapmgrc conn6 conn7 net"
+OTHERS="packer huffman packet6 packet7 snap teehist demo demohl datafile map browse gamenet recv snapmgr snapmgrc conn6 conn7 net"
 DOMS="buffer $OTHERS"
 $H gen buffer miri "$SEED" > run/miri.buffer.req || exit 2
 for d in $OTHERS; do
@@ -45,7 +45,7 @@ for d in $DOMS; do
   $D $d < run/miri.$d.req > run/miri.$d.model || exit 2
 done
 sed "s#@REPO@#$REPO#" harness-miri/Cargo.toml.in > harness-miri/Cargo.toml
-for st in stub-huffman-reference stub-snapshot-reference; do
+for st in stub-huffman-reference stub-snapshot-reference; do  # (stub-zlib-minimal needs no path)
   sed "s#@REPO@#$REPO#" harness-miri/$st/Cargo.toml.in > harness-miri/$st/Cargo.toml
 done
 cp "$REPO/Cargo.lock" harness-miri/Cargo.lock
@@ -60,8 +60,10 @@ for d in $DOMS; do
   # Miri deliberately returns short reads from files; the `buffer` model assumes that a regular file
   # delivers what is asked for and left (as the kernel does), so that run switches the short reads off
   X=""; [ "$d" = buffer ] && X=" -Zmiri-no-short-fd-operations"
-  ( MIRIFLAGS="$TB$X" cargo +nightly miri run --offline --bin tw-harness-miri -- $d ../run/miri.$d.req ../run/miri.$d.model > ../run/miri.$d.log 2>&1
-    echo "EXIT $?" >> ../run/miri.$d.log ) &
+  ( S=$(date +%s)
+    MIRIFLAGS="$TB$X" cargo +nightly miri run --offline --bin tw-harness-miri -- $d ../run/miri.$d.req ../run/miri.$d.model > ../run/miri.$d.log 2>&1
+    echo "EXIT $?" >> ../run/miri.$d.log
+    echo "SECS $(( $(date +%s) - S ))" >> ../run/miri.$d.log ) &
 done
 # the aliasing verdict of the default model (Stacked Borrows) on a minimal safe client
 MIRIFLAGS="-Zmiri-disable-isolation" cargo +nightly miri run --offline --bin sb_repro > ../run/miri.sb.log 2>&1
@@ -72,13 +74,14 @@ cd ..
 python3 - "$SEED" "$REPO" "$((T1 - T0))" "$SB_RC" "$SBTB_RC" <<'PY'
 import json, re, sys
 seed, repo, secs, sb_rc, sbtb_rc = sys.argv[1:]
-doms = ["buffer", "packer", "huffman", "packet6", "packet7", "snap", "teehist", "demo", "demohl", "datafile",
+doms = ["buffer", "packer", "huffman", "packet6", "packet7", "snap", "teehist", "demo", "demohl", "datafile", "map",
         "browse", "gamenet", "recv", "snapmgr", "snapmgrc", "conn6", "conn7", "net"]
 NOT_COVERED = {
     "huffman": "operations that print the C++ reference's answer (rd, rc) and the hash sweeps; the reference itself is a stand-in",
     "snap": "pair/sweep (they consult the C++ snapshot reference through FFI)",
     "teehist": "`file` with a fragmentation other than whole (socket pair + writer thread: Miri reports the blocking read as a deadlock), bulk forms sweep/all2",
-    "datafile": "every input that reaches read_data (zlib uncompress is C behind FFI): only files rejected by Reader::new are run; inflate/rt/openx/sweeps not run",
+    "datafile": "the real zlib (C behind FFI) — replaced for the whole crate graph by a pure-Rust inflate (stub-zlib-minimal, a port of the driver's decoder); sweeps not run",
+    "map": "the real zlib (same stand-in); only the shortest inputs (a map request takes ~45 s under Miri)",
     "demo": "first sessions only; sweep/mutall not run",
     "demohl": "first sessions only; mutall not run",
     "browse": "hash-form sweeps (mfh, hc, hs)",
@@ -96,8 +99,10 @@ for d in doms:
     m = re.findall(r"^MIRI-SUMMARY (.*)$", log, re.M)
     kv = dict(p.split("=") for p in m[-1].split()) if m else {}
     ex = re.findall(r"^EXIT (\d+)$", log, re.M)
+    sec = re.findall(r"^SECS (\d+)$", log, re.M)
     r = {"exit": int(ex[-1]) if ex else -1, "undefined_behavior_reports": log.count("Undefined Behavior"),
-         "unsupported_operation_reports": log.count("unsupported operation"), "finished": bool(m)}
+         "unsupported_operation_reports": log.count("unsupported operation"), "finished": bool(m),
+         "wall_s": int(sec[-1]) if sec else None}
     for k, v in kv.items():
         r[k] = int(v) if v.isdigit() else v
     r["first_diffs"] = re.findall(r"^(?:DIFF|FAIL) .*$", log, re.M)[:3]
@@ -122,7 +127,7 @@ sbm = re.search(r"Undefined Behavior: [^\n]*", sb)
 ev = {
     "property_id": "C19", "part": "memory-safety sentence (validation only)", "seed": int(seed), "repo": repo,
     "tool": "cargo +nightly miri run (harness-miri: every harness/src/d_*.rs except d_map.rs + the repository crates; the C++ huffman and snapshot references are replaced by stand-ins)",
-    "domains_not_runnable_under_miri": "map (its reader decompresses datafile items: zlib is C behind FFI), and every operation listed under not_covered",
+    "foreign_code_replaced_by_stand_ins": "zlib (pure-Rust inflate), C++ huffman reference (answers with the Rust implementation), C++ snapshot reference (types only; its operations are not sampled), mallopt (no-op)",
     "flags": "-Zmiri-disable-isolation -Zmiri-tree-borrows", "wall_s": int(secs), "tree_borrows_runs": runs,
     "stacked_borrows_minimal_client": {"bin": "harness-miri/src/bin/sb_repro.rs", "exit": int(sb_rc),
                                        "first_report": sbm.group(0) if sbm else None,
